@@ -60,6 +60,37 @@ FIELDS = {
     ('Inventory', 'step_size'): FieldSpec('int'),
     ('Inventory', 'allocation_ratio'): FieldSpec('real'),
 
+    ('ResourceClass', 'id'): FieldSpec('int', True),
+    ('ResourceClass', 'name'): FieldSpec('str', True),
+    ('Trait', 'id'): FieldSpec('int', True),
+    ('Trait', 'name'): FieldSpec('str', True),
+    ('Usage', 'resource_class'): FieldSpec('str', True),
+    ('Usage', 'usage'): FieldSpec('int'),
+    ('Usage', 'consumer_type'): FieldSpec('str', True),
+    ('Usage', 'consumer_count'): FieldSpec('int'),
+    ('RequestAttr', 'project'): FieldSpec(('obj', project_obj.Project)),
+    ('RequestAttr', 'user'): FieldSpec(('obj', user_obj.User)),
+    ('RequestAttr', 'consumer_type_id'): FieldSpec('int', True),
+    ('RequestWideParams', 'group_policy'): FieldSpec('str', True),
+    ('RequestGroup', 'use_same_provider'): FieldSpec('bool'),
+    ('Trait', 'created_at'): FieldSpec('str', True),
+    ('Trait', 'updated_at'): FieldSpec('str', True),
+    ('ResourceProvider', 'created_at'): FieldSpec('str', True),
+    ('ResourceProvider', 'updated_at'): FieldSpec('str', True),
+    ('ResourceClass', 'created_at'): FieldSpec('str', True),
+    ('ResourceClass', 'updated_at'): FieldSpec('str', True),
+    ('Inventory', 'created_at'): FieldSpec('str', True),
+    ('Inventory', 'updated_at'): FieldSpec('str', True),
+    ('Allocation', 'created_at'): FieldSpec('str', True),
+    ('Allocation', 'updated_at'): FieldSpec('str', True),
+    ('Consumer', 'created_at'): FieldSpec('str', True),
+    ('Consumer', 'updated_at'): FieldSpec('str', True),
+    ('Project', 'created_at'): FieldSpec('str', True),
+    ('Project', 'updated_at'): FieldSpec('str', True),
+    ('User', 'created_at'): FieldSpec('str', True),
+    ('User', 'updated_at'): FieldSpec('str', True),
+    ('Usage', 'created_at'): FieldSpec('str', True),
+    ('Usage', 'updated_at'): FieldSpec('str', True),
     ('CapRow', 'resource_provider_id'): FieldSpec('int'),
     ('CapRow', 'uuid'): FieldSpec('str'),
     ('CapRow', 'generation'): FieldSpec('int'),
@@ -82,4 +113,15 @@ FIELDS = {
     ('ProviderSummaryResource', 'capacity'): FieldSpec('int'),
     ('ProviderSummaryResource', 'max_unit'): FieldSpec('int'),
     ('ProviderSummary', 'resource_provider'): FieldSpec(('obj', RP)),
+    ('ProviderSummary', 'resources'): FieldSpec(
+        ('list', ('obj', ac.ProviderSummaryResource))),
+    ('ProviderSummary', 'traits'): FieldSpec(('list', 'str')),
+    ('AllocationRequest', 'resource_requests'): FieldSpec(
+        ('list', ('obj', ac.AllocationRequestResource))),
+    ('AllocationRequest', 'mappings'): FieldSpec(('map', 'str', ('list', 'str'))),
+    ('AllocationCandidates', 'allocation_requests'): FieldSpec(
+        ('list', ('obj', ac.AllocationRequest))),
+    ('AllocationCandidates', 'provider_summaries'): FieldSpec(
+        ('list', ('obj', ac.ProviderSummary))),
+    ('RequestGroup', 'resources'): FieldSpec(('map', 'str', 'int')),
 }
